@@ -11,7 +11,7 @@ def run(tier, seed, pid=PID):
     drv = daemon.build_driver(B)
     rnd = random.Random(seed)
     # E1: the mechanism model against the contract monitors, all interleavings
-    e1 = vlib.model_check('EchsdE1.tla', 'EchsdE1.cfg', wd, workers=vlib.NCPU, env={'TIER': tier}, timeout=3000, xmx='20g')
+    e1 = vlib.model_check('EchsdE1.tla', 'EchsdE1.cfg', wd, workers=vlib.NCPU, env={'TIER': tier}, timeout=6000, xmx='20g')
     if not e1['ok']:
         raise vlib.Broken('EchsdE1: the daemon mechanism model violates the contract:\n' + e1['out'][-3000:])
     for act in ('Tick', 'Reify', 'DeliverPer', 'Cancel', 'Put'):
@@ -68,7 +68,7 @@ def run(tier, seed, pid=PID):
            'model_graph_states': g['states'], 'model_graph_edges': nedges, 'model_cover_scripts_total': total_scripts, 'model_scripts_run': nmodel,
            'model_edges_replayed': ncov if tier == 'thorough' else 'part (%d of %d cover scripts)' % (nmodel, total_scripts), 'random_scripts': nrand, 'all_day_scripts': nall,
            'spawns_observed': nspawn, 'not_run_spawns_observed': nnorun, 'mismatching_runs': v['nbad'], 'model_drift_runs': ndrift,
-           'e1_constants': 'quick: 2 tasks, occurrence lists {<<1>>,<<1,1>>,<<1,2>>}, limits {unset,1}, clock 0..4, 1 replace/cancel; thorough: 5 lists incl. <<0,3>> and <<1,2,3>>, limits {unset,1,2}, clock 0..5',
+           'e1_constants': 'quick: 2 tasks, occurrence lists {<<1>>,<<1,1>>,<<1,2>>}, limits {unset,1}, clock 0..4, 1 replace/cancel; thorough: 5 lists incl. <<0,3>> and <<2,4>>, limits {unset,1,2}, clock 0..5 (14 M states)',
            'e1_actions': e1['coverage'], 'exhaustive': tier == 'thorough'}
     if ndrift: cov['model_drift_note'] = 'task table differs from the Echsd.tla state after some step although the contract holds: update the I-model'
     return vlib.finish(pid, tier, seed, 'model_checking', cov, t0, unlisted, listed,
